@@ -40,7 +40,7 @@ Definition serial_match (stepf : graph -> op -> graph * outcome) (g : graph) (l 
     end in
   fold_right (fun p acc => match try p with Some g1 => Some g1 | None => acc end) None (perms l).
 
-Definition xtarget (x : xop) : string := match x with XSave p | XUnplug p | XPlug p | XProbe p => p | XRestart => "" end.
+Definition xtarget (x : xop) : string := match x with XSave p | XUnplug p | XPlug p | XProbe p | XReset p => p | XRestart => "" end.
 
 (* one step of a history on (registry, persisted store); None = the observation is not explained *)
 Definition hstep_match (stepf : graph -> op -> graph * outcome) (st : graph * store) (h : hstep) : option (graph * store) :=
